@@ -276,6 +276,9 @@ impl<C: OptCtx> Runtime<C> {
     ///
     /// See also [`Runtime::from_lib`], which combines [`Runtime::new`] and
     /// [`Runtime::add`] into a single function.
+    ///
+    /// If the items are rejected, none of them is registered: the runtime is
+    /// left as it was before the call.
     pub fn add(
         &mut self,
         items: impl Registerable,
@@ -322,6 +325,20 @@ impl<C: OptCtx> Runtime<C> {
 
 impl Rt {
     pub fn add(
+        &mut self,
+        items: impl Registerable,
+    ) -> Result<(), RegistrationError> {
+        // Registration is all or nothing: the passes run on a copy that
+        // replaces this runtime only if all of them succeed, so that a
+        // rejected library leaves none of its modules, types, functions,
+        // constants or imports behind.
+        let mut rt = self.clone();
+        rt.add_items(items)?;
+        *self = rt;
+        Ok(())
+    }
+
+    fn add_items(
         &mut self,
         items: impl Registerable,
     ) -> Result<(), RegistrationError> {
